@@ -119,6 +119,9 @@ def r0(ctx, P, Q, qname):
             if f.name not in REVIEWED_ONLY_PAR:
                 ctx.finding(rid, fid, 'only-parallel', '%s exists only in the PARALLELIZE build and is not in the reviewed table: its effects on shared solver state are not covered by R1-R6' % f.name, loc=f.loc)
         elif fn_hash(f) != fn_hash(g):
+            from ..effects import _fully_inlined
+            if f.d.get('_new_helper') and g.d.get('_new_helper') and _fully_inlined(Q, f) and _fully_inlined(P, g):
+                continue        # a helper extracted from reviewed code (in both builds): its two bodies are compared where they were inlined
             ctx.instance(rid, ['differs', f.name], {'function': fid, 'reviewed': REVIEWED_DIFF.get(f.name)})
             if f.name not in REVIEWED_DIFF:
                 ctx.finding(rid, fid, 'differs', '%s is compiled differently with PARALLELIZE and is not in the reviewed table' % f.name, loc=f.loc)
@@ -177,6 +180,20 @@ def r1(ctx, P, Q, qname):
         return s
     sp, sq = flat(upd_p), flat(upd_q)
     same = sp == sq
+    if not same:
+        # not statement for statement the same text: compare what the two bodies DO - their normalised path sets (guards as literals, effects as sorted
+        # multisets, locals alpha-renamed), the lock_guard declarations left out
+        from .. import dual
+
+        class Body(dual.Summ):
+            def stmt(self, st):
+                if is_lock_decl(st):
+                    return None
+                return super().stmt(st)
+        a, b = Body(P, fp, subst=False), Body(Q, fq, subst=False)
+        a.alpha_scope(upd_p)
+        b.alpha_scope(upd_q)
+        same = a.paths(upd_p) == b.paths(upd_q)
     ctx.instance(rid, [qname, 'task-body'], {'sequential': '%s:%s' % (fp.loc, short(upd_p.get('loc'))), 'task': short(lam.get('loc')), 'equal_modulo_lock_guards': same,
                                            'statements': len(list(walk(upd_q)))})
     if not same:
@@ -501,12 +518,25 @@ def r6(ctx, Q, qname):
     preds = []
     for n in f.nodes():
         if n.get('k') == 'CXXMemberCallExpr' and (n.get('callee_name') or '').startswith('std::condition_variable::wait'):
-            for l in walk(n):
-                if l.get('k') == 'LambdaExpr':
-                    rets = [m for m in walk(l) if m.get('k') == 'ReturnStmt']
-                    if rets:
-                        preds.append(norm_and(canon(rets[0]['c'][0], None)))
+            lam = [l for l in walk(n) if l.get('k') == 'LambdaExpr']
+            for l in lam:
+                rets = [m for m in walk(l) if m.get('k') == 'ReturnStmt']
+                if rets:
+                    preds.append(norm_and(nnf(canon(rets[0]['c'][0], None))))
+            if not lam:
+                # wait(lock) without a predicate: the condition waited for is the negation of the condition of the loop that repeats the wait
+                # (`while (!P) cv.wait(lock);` is what `cv.wait(lock, [&]{ return P; })` is defined to do)
+                lp = None
+                for a in f.ancestors(n):
+                    if a.get('k') == 'WhileStmt':
+                        body = a['slots']['body']
+                        sts = [x for x in (body.get('c') or ()) if x.get('k') != 'NullStmt'] if body.get('k') == 'CompoundStmt' else [body]
+                        if len(sts) == 1 and any(m is n for m in walk(sts[0])):
+                            lp = a
+                        break
+                preds.append(norm_and(nnf(('!', canon(lp['slots']['cond'], env, subst=False)))) if lp is not None else ('unguarded wait',))
     want = norm_and(('&&', ('==', TP + 'active', ('num', 0)), ('mcall', 'std::queue<std::function<void ()>>::empty', TP + 'tasks')))
+    want = norm_and(nnf(want))
     okj = len(preds) == 1 and preds[0] == want
     ctx.instance(rid, [qname, 'join', 'predicate'], {'predicates': [show(p) for p in preds], 'ok': okj})
     if not okj:
